@@ -41,7 +41,8 @@ META = {
     'decided': ['D1 ownership of the export table',
                 'D2 one announcement per export / unexport',
                 'D3 descendants are selected hierarchically',
-                'D4 immediate children / no-such-path'],
+                'D4 immediate children (each listed once: de-duplicated '
+                'against the whole list) / no-such-path'],
     'undecided': ['exactness over histories of export and unexport'],
 }
 
@@ -406,10 +407,26 @@ def children_once(ctx, gx):
     for n in prog._iter_scope(gx.node):
         # guarded append: if x not in <name>: <name>.append(x)
         if isinstance(n, ast.If):
-            test = ast.unparse(n.test)
-            body = ast.unparse(ast.Module(body=n.body, type_ignores=[]))
-            if ('not in %s' % name) in test and ('%s.append(' % name) in body:
+            # the membership test must be against the WHOLE list (not a
+            # slice of it) and of the very value that is appended
+            tested = [ast.dump(c.left) for c in ast.walk(n.test)
+                      if isinstance(c, ast.Compare) and len(c.ops) == 1 and
+                      isinstance(c.ops[0], ast.NotIn) and
+                      isinstance(c.comparators[0], ast.Name) and
+                      c.comparators[0].id == name]
+            appended = [ast.dump(c.args[0]) for st in n.body
+                        for c in ast.walk(st)
+                        if isinstance(c, ast.Call) and
+                        isinstance(c.func, ast.Attribute) and
+                        c.func.attr == 'append' and
+                        isinstance(c.func.value, ast.Name) and
+                        c.func.value.id == name and len(c.args) == 1]
+            if appended and all(a in tested for a in appended):
                 ok, how = True, 'append guarded by "not in"'
+            elif appended and not ok:
+                how = 'the append is guarded by a test that does not ' \
+                      'compare the appended name with the whole list: %s' \
+                      % ast.unparse(n.test)
         if isinstance(n, ast.Assign) and len(n.targets) == 1 and \
                 isinstance(n.targets[0], ast.Name) and \
                 n.targets[0].id == name:
